@@ -57,6 +57,20 @@ func runC05(c *Ctx) {
 	wfStaticReal(c, cases)
 	lap("wfStatic on real programs")
 	res := VMCorrespondence(c, ok, 1000)
+	// programs on which the compile model disagrees are still run and observed (independent of the model)
+	inOk := map[*Case]bool{}
+	for _, cs := range ok {
+		inOk[cs] = true
+	}
+	old := vm.MemoryBudget
+	vm.MemoryBudget = 1000
+	for _, cs := range cases {
+		if cs.B != nil && cs.B.Program != nil && !inOk[cs] {
+			res = append(res, &VMResult{Case: cs, Real: RunReal(&vm.VM{}, cs.B.Program, envVal(cs), cs.Env)})
+			r.Count("balance:unmodelled-runs", 1)
+		}
+	}
+	vm.MemoryBudget = old
 	balanceCheck(c, res)
 	lap("vm correspondence + balance")
 	bigPrograms(c, bigSpecs(c.Thorough()))
